@@ -9,6 +9,7 @@ Theorems only; helpers live in Proofs/Api.lean, Proofs/ApiView.lean, Proofs/ApiS
 import ZtypV.Proofs.Api
 import ZtypV.Proofs.ApiView
 import ZtypV.Proofs.ApiSkip
+import ZtypV.Proofs.ViewRoot
 namespace ZtypV.Props.C02
 open ZtypV ZtypV.View ZtypV.Api ZtypV.Sim ZtypV.CodecIO
 
@@ -298,5 +299,62 @@ example :
     (run2 (Dec.new (mkReader [1, 2, 3, 4, 5, 6, 7, 8] [2, 3] .eofWithData 8) 8)
       [.skip 3, .u32, .base .index, .skip 2]).1 =
       [.skipped 3, .base (.num 117835012), .base (.index 7 8)] := by decide
+
+/-! ## 8. the remaining small methods: typed `New()`, `BackedView`, basic `SetBacking`, `tree.Root` as a value -/
+
+/-- `td.New()` of a composite type definition is a view of the type's default value:
+    its backing exists and has the spec root of `defaultVal t` -/
+theorem C02c_new (h : HashFn) (t : Ty) (hwf : t.wf = true) (hnb : noBoolSeries t = true) :
+    ∃ n, newBacking h t = .ok n ∧ n.root h = htr h t (defaultVal t) :=
+  defaultNode_root h t hwf hnb
+
+/-- `BackedView.Copy()` / `Default(hook)` of a composite view: never fails, and the result views
+    the SAME node (so the same root, bytes and components as the original) -/
+theorem C02c_backedCopy (t : Ty) (n : Node)
+    (hcomp : match t with | .uint _ | .bool | .bytesN _ => False | _ => True) :
+    backedCopy t n = .ok n := by
+  cases t with
+  | uint _ => exact hcomp.elim
+  | bool => exact hcomp.elim
+  | bytesN _ => exact hcomp.elim
+  | _ => cases n <;> simp [backedCopy, viewFromBackingOk]
+
+/-- whatever it returns is the original's node, for every type -/
+theorem C02c_backedCopy_same (t : Ty) (n c : Node) (hc : backedCopy t n = .ok c) : c = n := by
+  unfold backedCopy at hc
+  split at hc
+  · cases hc; rfl
+  · cases hc
+
+/-- on a backing of the value `v`: the copy reads back `v`, serializes to `serialize t v` and has
+    the spec root -/
+theorem C02c_backedCopy_value (h : HashFn) (t : Ty) (v : Val) (n c : Node)
+    (hc : backedCopy t n = .ok c) (hr : Rep h t v n) : Rep h t v c := by
+  rw [C02c_backedCopy_same t n c hc]; exact hr
+
+/-- `SetBacking` of a basic value view is always refused and leaves the value untouched -/
+theorem C02c_basicSetBacking (v : Val) (b : Node) :
+    (basicSetBacking v b).1 = some .other ∧ (basicSetBacking v b).2 = v := ⟨rfl, rfl⟩
+
+/-- a `tree.Root` used as a value is the SSZ value `Bytes32`: root, bytes and both lengths -/
+theorem C02c_root_value (h : HashFn) (r : Root) (hl : r.length = 32) :
+    rootHashTreeRoot h r = htr h (.bytesN 32) (.bytes r) ∧
+    rootSerialize r = serialize (.bytesN 32) (.bytes r) ∧
+    rootValueByteLength = .ok (serialize (.bytesN 32) (.bytes r)).length ∧
+    rootByteLength = Ty.typeByteLength (.bytesN 32) := by
+  have hc : chunks r = [r] := by
+    rw [ViewRoot.chunks_single r (by omega) (by omega), chunkOf_of_ge r (by omega)]
+    rw [List.take_of_length_le (by omega)]
+  refine ⟨?_, ?_, ?_, ?_⟩
+  · simp only [rootHashTreeRoot, htr]
+    have : coverDepth ((32 + 31) / 32) = 0 := by decide
+    rw [this, hc]; rfl
+  · simp [rootSerialize, serialize]
+  · simp [rootValueByteLength, serialize, hl]
+  · rfl
+
+example : backedCopy (.list (.uint 1) 4) (.pair (.leaf z0) (lengthNode 0)) = .ok (.pair (.leaf z0) (lengthNode 0)) := rfl
+example : (basicSetBacking (.num 5) (.leaf z0)).2 = .num 5 := rfl
+
 
 end ZtypV.Props.C02
